@@ -54,7 +54,7 @@ func voteGuardTracks(c *Ctx, fn *ssa.Function, req string) []engine.Track {
 				return false, 0
 			}
 			s := cd.EdgeOrd(true)
-			if s == engine.LT|engine.GT {
+			if isNE(s) {
 				return true, engine.True
 			}
 			if s == engine.EQ {
@@ -105,7 +105,7 @@ func c06R1(c *Ctx, rule string) {
 		engine.Event("persist", c.P.IsCallTo(engine.Is("(*Raft).persistVote"))),
 		engine.PredCond("persistErr", func(cd engine.Cond) (bool, int) {
 			if cd.IsRel && strings.HasPrefix(cd.X, "recv.persistVote(") && cd.Y == "nil" {
-				if cd.EdgeOrd(true) == engine.LT|engine.GT {
+				if isNEc(cd) {
 					return true, engine.True
 				}
 				if cd.EdgeOrd(true) == engine.EQ {
@@ -195,7 +195,7 @@ func c06R3(c *Ctx, rule string) {
 		name := c.P.Name(fn)
 		candErr := engine.PredCond("candErr", func(cd engine.Cond) (bool, int) {
 			if cd.IsRel && strings.Contains(cd.X, ".Set(@keyLastVoteCand") && cd.Y == "nil" {
-				if cd.EdgeOrd(true) == engine.LT|engine.GT {
+				if isNEc(cd) {
 					return true, engine.True
 				}
 				if cd.EdgeOrd(true) == engine.EQ {
@@ -228,7 +228,7 @@ func c06R3(c *Ctx, rule string) {
 func errNotNil(prefix string) func(cd engine.Cond) (bool, int) {
 	return func(cd engine.Cond) (bool, int) {
 		if cd.IsRel && strings.HasPrefix(cd.X, prefix) && cd.Y == "nil" {
-			if cd.EdgeOrd(true) == engine.LT|engine.GT {
+			if isNEc(cd) {
 				return true, engine.True
 			}
 			if cd.EdgeOrd(true) == engine.EQ {
